@@ -208,7 +208,7 @@ def _out_np(out, ci, want_cshape=None):
         out = torch.view_as_complex(out.contiguous())
     if want_cshape is not None and list(out.shape) != list(want_cshape):
         raise _BadOutput(f"shape {list(out.shape)} instead of {list(want_cshape)}")
-    return out.resolve_conj().numpy().astype(np.complex128)
+    return out.detach().resolve_conj().numpy().astype(np.complex128)
 
 
 # --------------------------------------------------------------------------------------------------
@@ -717,16 +717,65 @@ def _as_np(out, ci):
         return np.array([f"bad output: {e}"], dtype=object)
 
 
-def _fft_oracle_case(T, shape_c, dims, c, n, ci, seed):
-    """-> list of (key, what, observed) for the failing laws on this input"""
+def _ambient_modes():
+    """ambient torch modes the operators must not depend on: name -> (context-manager factory, requires_grad input)"""
+    import contextlib
+
+    @contextlib.contextmanager
+    def default_dtype(dt):
+        old = torch.get_default_dtype()
+        torch.set_default_dtype(dt)
+        try:
+            yield
+        finally:
+            torch.set_default_dtype(old)
+
+    @contextlib.contextmanager
+    def deterministic():
+        old = torch.are_deterministic_algorithms_enabled()
+        warn = torch.is_deterministic_algorithms_warn_only_enabled()
+        torch.use_deterministic_algorithms(True)
+        try:
+            yield
+        finally:
+            torch.use_deterministic_algorithms(old, warn_only=warn)
+
+    return {
+        "autocast-cpu-bfloat16": (lambda: torch.autocast("cpu", dtype=torch.bfloat16), False),
+        "autocast-cpu-float16": (lambda: torch.autocast("cpu", dtype=torch.float16), False),
+        "no_grad": (torch.no_grad, False),
+        "inference_mode": (torch.inference_mode, False),
+        "default-dtype-float64": (lambda: default_dtype(torch.float64), False),
+        "requires_grad": (contextlib.nullcontext, True),
+        "deterministic-algorithms": (deterministic, False),
+    }
+
+
+def _fft_oracle_case(T, shape_c, dims, c, n, ci, seed, mode=None):
+    """-> list of (key, what, observed) for the failing laws on this input (optionally inside an ambient torch mode)"""
+    if mode is None:
+        return _fft_oracle_case0(T, shape_c, dims, c, n, ci, seed, False)
+    import warnings
+
+    factory, rg = _ambient_modes()[mode]
+    with warnings.catch_warnings():
+        warnings.simplefilter("ignore")
+        with factory():
+            bad = _fft_oracle_case0(T, shape_c, dims, c, n, ci, seed, rg)
+    return [(f"ambient-mode/{mode}/{k}", f"inside {mode}: {w}", o) for k, w, o in bad]
+
+
+def _fft_oracle_case0(T, shape_c, dims, c, n, ci, seed, requires_grad):
     r = __import__("random").Random(seed)
     xr = _rand_complex(r, shape_c)
     x = xr if ci else torch.view_as_complex(xr)
     z = torch.view_as_complex(xr).numpy().astype(np.complex128)
+    if requires_grad:
+        x = x.clone().requires_grad_(True)
     bad = []
     odd = any(shape_c[a] % 2 == 1 and shape_c[a] >= 3 for a in dims)
     tag = ("centered" if c else "uncentered") + ("-odd" if odd else "-even")
-    x0 = x.clone()
+    x0 = x.detach().clone()
     outs = {}
     try:
         outs["fft2(x)"] = fwd = _call(T, "fft2", x, dims, c, n, ci)
@@ -743,7 +792,7 @@ def _fft_oracle_case(T, shape_c, dims, c, n, ci, seed):
     if bad:
         return bad
     try:
-        fwd0 = fwd.clone()
+        fwd0 = fwd.detach().clone()
         back1 = _call(T, "ifft2", fwd, dims, c, n, ci)
         back2 = _call(T, "fft2", bwd, dims, c, n, ci)
         again = _call(T, "fft2", x, dims, c, n, ci)
@@ -1070,6 +1119,18 @@ def oracle(ctx: Ctx, deep: bool = False):
                 for key, what, obs in _fft_oracle_case(T, [2, h, w], [1, 2], c, 1, 1, seed):
                     yield Violation(key, what, {"op": "fft-laws", "shape": [2, h, w], "dims": [1, 2], "centered": c,
                                                 "normalized": 1, "complex_input": 1, "seed": seed, "law": key, "observed": obs})
+    # (2a') ambient torch modes: the same laws (inverse pair, energy, reference DFT, textbook sum, output dtype / shape, input
+    #       untouched) inside autocast (cpu, bfloat16 / float16), no_grad, inference_mode, default dtype float64, deterministic
+    #       algorithms, and on inputs that require grad — every flag combination incl. complex_input=False, a power-of-two and an
+    #       odd / non-trailing shape
+    for mode in _ambient_modes():
+        for (c, n, ci) in combos:
+            for shape_c, d in (([2, 4, 8], [1, 2]), ([3, 5, 6], [2, 0])) + ((([4, 2, 3, 5], [3, 1, 2]),) if big else ()):
+                seed = rng.randrange(2 ** 31)
+                ctx.count(("mode", mode, c, n, ci, tuple(shape_c)), True, bucket=f"oracle/ambient-mode/{mode}/ci{ci}")
+                for key, what, obs in _fft_oracle_case(T, shape_c, d, c, n, ci, seed, mode=mode):
+                    yield Violation(key, what, {"op": "fft-laws", "shape": shape_c, "dims": d, "centered": c, "normalized": n,
+                                                "complex_input": ci, "seed": seed, "law": key, "observed": obs, "mode": mode})
     # (2b) the single assumption about torch.fft that the theorems do not discharge: fftn / ifftn over a tuple of axes is the
     #      composition of the 1-D DFTs along those axes (scale per axis), for every norm — checked against sequential 1-D
     #      torch ffts and against the explicit DFT matrix
@@ -1410,7 +1471,8 @@ def replay(rep: dict) -> bool:
             a, b = (T.ifftshift, T.fftshift) if rep["which"].startswith("fftshift") else (T.fftshift, T.ifftshift)
             return not torch.equal(b(a(x, dim=list(rep["dims"])), dim=list(rep["dims"])), x)
         if op == "fft-laws":
-            bad = _fft_oracle_case(T, rep["shape"], rep["dims"], rep["centered"], rep["normalized"], rep["complex_input"], rep["seed"])
+            bad = _fft_oracle_case(T, rep["shape"], rep["dims"], rep["centered"], rep["normalized"], rep["complex_input"], rep["seed"],
+                                   mode=rep.get("mode"))
             return any(k == rep["law"] for k, _, _ in bad)
         if op == "line":
             return _line_disagrees(rep["line"], rep["model"], rep.get("who", ""))
